@@ -121,10 +121,15 @@ def record(args):
         X[s0:s0 + 3, int(rng.integers(0, p))] += 5.0 + 1.0 / 128
         X[int(rng.integers(0, n)), int(rng.integers(0, p))] -= 7.0 + 1.0 / 256
         assert all(len(set(X[:, j_])) == n for j_ in range(p))
+        # a third of the series is recorded in a SMALL unit (2^-13, exact in floating point: every ratio is preserved
+        # bit by bit): variances of 1e-11 .. 1e-6 are far above the variance floor (1e-16), so every relation must hold
+        # as at unit scale
+        u = float(rng.choice([1.0, 1.0, 2.0 ** -13]))
+        X = X * u
         perm = [int(x) for x in rng.permutation(p)]
         while perm == list(range(p)):
             perm = [int(x) for x in rng.permutation(p)]
-        shift = rng.integers(-3, 4, size=p).astype(float)
+        shift = rng.integers(-3, 4, size=p).astype(float) * u
         scale = float(rng.choice([2.0, 3.0, 0.5]))
         transforms = {"permute": X[:, perm], "shift": X + shift, "scale": X * scale, "reverse": X[::-1].copy()}
         rid = f"y-{seed}-{i}"
@@ -151,7 +156,7 @@ def record(args):
                     parts = [X[cut[0]:cut[-1]]] + [X[cut[i]:cut[i + 1]] for i in range(len(cut) - 1)]
                     if len(cut) == 4:
                         parts.append(np.concatenate((X[cut[0]:cut[1]], X[cut[2]:cut[3]])))
-                    return all(np.all(np.var(part, axis=0) > 1e-9) for part in parts if len(part) >= 2)
+                    return all(np.all(np.var(part, axis=0) > 1e-9 * u * u) for part in parts if len(part) >= 2)
 
                 cuts = [c for c in cuts if positive_variance(c)]
             if not cuts:
@@ -214,7 +219,7 @@ def record(args):
                     T = np.arange(1, len(t0) + 1)
                     t0, t1 = t0[m_ - 1:], (t1 - T * p * 2 * math.log(scale))[m_ - 1:]
                 same_scores = t0 is not None and t1 is not None and t0.shape == t1.shape and \
-                    np.allclose(t0, t1, rtol=1e-9, atol=1e-9)
+                    np.allclose(t0, t1, rtol=1e-9, atol=1e-9 * u * u)
                 if t0 is not None and t1 is not None and t0.shape == t1.shape:
                     (qa, qb), unit = quant([[t0.tolist()], [t1.tolist()]])
                     out.append({"id": f"{rid}-{name}-{tname}-scores", "rec": "values", "what": f"{name}_{tname}_scores", "a": qa, "b": qb,
@@ -236,7 +241,7 @@ def _norm(kind, y, perm):
 def run(tier: str) -> int:
     chk = Check(PROP, tier)
     chk.rule = ("stage A: every lattice matrix / table within the constants (exact symmetries of the statistics, OptReversal); "
-                "stage C: seeded lattice data (n 18..29, p 2..3) x {column permutation, per-column shift, scale 2 / 3 / 0.5, "
+                "stage C: seeded lattice data (n 18..29, p 2..3; a third of it in a small unit, 2^-13) x {column permutation, per-column shift, scale 2 / 3 / 0.5, "
                 "reversal} x 10 scorers and 13 detector configurations; values always related, detections unless tied.  "
                 "Non-trivial = every pair (the transformation is never the identity); distinct record ids.")
     chk.assumptions = ["TLC/SANY and the Json module", "values are compared after quantisation with a tolerance of 16..64 units of "
